@@ -388,6 +388,10 @@ func (c *HostClient) Do(ctx context.Context, req *protocol.Request, resp *protoc
 		isDefaultRetryFunc = false
 	}
 
+	// a body given as a stream is consumed and detached by the first attempt to write
+	// the request (IsBodyStream is false afterwards): it cannot be sent a second time
+	hadBodyStream := req.IsBodyStream()
+
 	atomic.AddInt32(&c.pendingRequests, 1)
 	req.Options().StartRequest()
 	for {
@@ -418,7 +422,7 @@ func (c *HostClient) Do(ctx context.Context, req *protocol.Request, resp *protoc
 		// keep-alive connection on timeout.
 		//
 		// Apache and nginx usually do this.
-		if canIdempotentRetry && client.DefaultRetryIf(req, resp, err) && errors.Is(err, errs.ErrBadPoolConn) {
+		if canIdempotentRetry && !hadBodyStream && client.DefaultRetryIf(req, resp, err) && errors.Is(err, errs.ErrBadPoolConn) {
 			connAttempts++
 			continue
 		}
@@ -433,7 +437,7 @@ func (c *HostClient) Do(ctx context.Context, req *protocol.Request, resp *protoc
 		}
 
 		// Check whether this request should be retried
-		if !isRequestRetryable(req, resp, err) {
+		if hadBodyStream || !isRequestRetryable(req, resp, err) {
 			break
 		}
 
